@@ -1,0 +1,12 @@
+//go:build !verif
+
+// Package verifhook provides observation/rendezvous points for the external
+// verification harness. Without the "verif" build tag Point is an empty
+// function and compiles to nothing.
+package verifhook
+
+// Enabled reports whether the verification hooks are compiled in.
+const Enabled = false
+
+// Point is a no-op without the "verif" build tag.
+func Point(_ string, _ ...any) {}
